@@ -388,6 +388,9 @@ class At4AirConditioner(pyairtouch.api.AirConditioner):
         # code. It is also asked for when an unchanged status still lacks it: the
         # answer to the earlier request may have been lost with the connection.
         if ac_status.has_error():
+            if ac_status.error_code != old_status.error_code:
+                # The description known so far belongs to another error.
+                self._ac_error_info = None
             if changed or self._ac_error_info is None:
                 await self._socket.send(
                     message=extended_msg.ExtendedMessage(
